@@ -134,7 +134,50 @@ impl Default for Runtime {
     }
 }
 
+/// Verification seam: deliver the termination request at a named point of the scheduling code.
+#[cfg(feature = "verif")]
+pub mod verif_sched {
+    use std::sync::Mutex;
+
+    pub(super) static AT: Mutex<Option<(String, usize)>> = Mutex::new(None);
+
+    /// Deliver the termination request when `point` is passed for the `nth` time (0-based).
+    pub fn arm(point: &str, nth: usize) {
+        *AT.lock().unwrap() = Some((point.to_string(), nth));
+    }
+
+    pub fn disarm() {
+        *AT.lock().unwrap() = None;
+    }
+}
+
 impl Runtime {
+    #[cfg(feature = "verif")]
+    fn verif_point(&self, point: &str) {
+        let mut at = verif_sched::AT.lock().unwrap();
+        let fire = match at.as_mut() {
+            Some((p, n)) if p == point => {
+                if *n == 0 {
+                    true
+                } else {
+                    *n -= 1;
+                    false
+                }
+            }
+            _ => false,
+        };
+        if fire {
+            *at = None;
+            self.shutdown.0.send(()).ok();
+        }
+    }
+
+    /// Verification seam: deliver the termination request now (what the signal task does).
+    #[cfg(feature = "verif")]
+    pub fn verif_request_shutdown(&self) {
+        self.shutdown.0.send(()).ok();
+    }
+
     /// Listen for termination signal.
     ///
     /// This method will spawn a task that will listen for the interrupt signal
@@ -181,6 +224,9 @@ impl Runtime {
         S: Service<C> + Send + Sync + 'static,
         C: Clone + Send + 'static,
     {
+        #[cfg(feature = "verif")]
+        self.verif_point("enter");
+
         let command_tx = self.command_tx.clone();
         let signal_rx = self.signal_rx.resubscribe();
         let mut shutdown = self.shutdown.0.subscribe();
@@ -189,7 +235,11 @@ impl Runtime {
 
         debug!("Schedule IO service: {}", service.ctx());
 
+        #[cfg(feature = "verif")]
+        self.verif_point("guard");
         if self.shutdown.1.is_empty() {
+            #[cfg(feature = "verif")]
+            self.verif_point("spawn");
             self.spawn(async move {
                 service.setup().await;
 
@@ -212,6 +262,9 @@ impl Runtime {
         S: Service<C> + Send + Sync + 'static,
         C: Clone + Send + 'static,
     {
+        #[cfg(feature = "verif")]
+        self.verif_point("enter");
+
         let signal_tx = self.signal_tx.clone();
         let mut shutdown = self.shutdown.0.subscribe();
 
@@ -219,7 +272,11 @@ impl Runtime {
 
         debug!("Schedule IO service: {}", service.ctx());
 
+        #[cfg(feature = "verif")]
+        self.verif_point("guard");
         if self.shutdown.1.is_empty() {
+            #[cfg(feature = "verif")]
+            self.verif_point("spawn");
             self.spawn(async move {
                 service.setup().await;
 
@@ -242,6 +299,9 @@ impl Runtime {
         S: NetworkService<C> + Clone + Send + 'static,
         C: Clone + Send + 'static,
     {
+        #[cfg(feature = "verif")]
+        self.verif_point("enter");
+
         let mut command_rx = self.command_tx.subscribe();
 
         let signal1_tx = self.signal_tx.clone();
@@ -251,7 +311,11 @@ impl Runtime {
         let mut service2 = service1.clone();
         let mut service3 = service1.clone();
 
+        #[cfg(feature = "verif")]
+        self.verif_point("guard");
         if self.shutdown.1.is_empty() {
+            #[cfg(feature = "verif")]
+            self.verif_point("spawn");
             let mut shutdown = self.shutdown.0.subscribe();
 
             self.spawn(async move {
@@ -269,6 +333,8 @@ impl Runtime {
                 service1.teardown().await;
             });
 
+            #[cfg(feature = "verif")]
+            self.verif_point("spawn2");
             let mut shutdown = self.shutdown.0.subscribe();
 
             self.spawn(async move {
@@ -283,6 +349,8 @@ impl Runtime {
                 }
             });
 
+            #[cfg(feature = "verif")]
+            self.verif_point("spawn3");
             let mut shutdown = self.shutdown.0.subscribe();
 
             self.spawn(async move {
